@@ -10,20 +10,39 @@ from common import B, L, Nat, O, P, S
 MODEL_FILES = ["Model/Validio.v", "Model/ValidioInst.v", "Model/History.v", "Model/Writer.v", "Corr/Obs.v"]
 HEADER = V.HEADER + """From CP Require Import Model.History Model.Writer Model.Delimited.
 Definition obs := (list (option err) * option text * option err)%type.   (* per call, stream text, close verdict *)
-Definition run (i : cid cstate * bool * list nat * text * list (list text)) : obs :=
+(* one call of the Writer: write_row(row) or write_rows(rows), which stops at the first rejected row *)
+Inductive wop := WRow (r : list text) | WRows (rs : list (list text)).
+Fixpoint rows_call (c : cid cstate) (w : wstate cstate) (rs : list (list text)) : wstate cstate * option err :=
+  match rs with
+  | [] => (w, None)
+  | r :: t => let '(w', e, _) := write_row c w r in
+              match e with Some x => (w', Some x) | None => rows_call c w' t end
+  end.
+Fixpoint ops_all (c : cid cstate) (w : wstate cstate) (ops : list wop) : wstate cstate * list (option err) :=
+  match ops with
+  | [] => (w, [])
+  | op :: rest =>
+      let '(w', e) := match op with
+                      | WRow r => let '(a, b, _) := write_row c w r in (a, b)
+                      | WRows rs => rows_call c w rs
+                      end in
+      let '(wf, es) := ops_all c w' rest in (wf, e :: es)
+  end.
+Definition run (i : cid cstate * bool * list nat * text * list wop) : obs :=
   let '(c, fixed, ws, sep, rows) := i in
-  let '(wf, es) := write_all c (writer_init c []) rows in
+  let '(wf, es) := ops_all c (writer_init c []) rows in
   let text := if fixed then Some (fixed_text ws sep (Validio.w_rows wf))
               else delimited_text (as_delimited_keywords 44 34 34 false) (Validio.w_rows wf) in
   let '(_, ce, _) := writer_close c wf in (es, text, ce).
 Definition obs_eqb (a b : obs) : bool :=
   let '(e, t, c) := a in let '(e', t', c') := b in
   list_eqb (option_eqb err_eqb) e e' && option_eqb text_eqb t t' && option_eqb err_eqb c c'."""
-CASE_TYPE = "(cid cstate * bool * list nat * text * list (list text)) * obs"
+CASE_TYPE = "(cid cstate * bool * list nat * text * list wop) * obs"
 MODEL = "run"
 EQB = "obs_eqb"
 SHARD = 250
-RULE = ("sequences of 0..8 write_row calls mixing accepted rows, field errors, wrong item counts and duplicates x "
+RULE = ("sequences of 0..8 rows written by write_row calls or - half of the cases - by a random split into write_row and "
+        "write_rows calls (a write_rows call stops at its first rejected row; calls after a rejection continue the file), mixing accepted rows, field errors, wrong item counts and duplicates x "
         "delimited and fixed CIDs (Text/Choice fields, lengths, allowed characters; line delimiter lf/cr/crlf/any/none "
         "for fixed) x header 0..1 x IsUnique / DistinctCount checks; observed: outcome of every call, the final stream "
         "text, the close verdict; the produced text is then read back under a freshly loaded copy of the CID and must "
@@ -41,9 +60,13 @@ def make_case(inp):
     target = io.StringIO(newline="")
     writer = validio.Writer(cid, target)
     writes = []
-    for row in rows:
+    ops = inp.get("ops") or [["row", r] for r in rows]
+    for kind, arg in ops:
         try:
-            writer.write_row(list(row))
+            if kind == "row":
+                writer.write_row(list(arg))
+            else:
+                writer.write_rows([list(r) for r in arg])
             writes.append(None)
         except Exception as e:  # noqa
             writes.append(V.canon_error(e, spec))
@@ -57,7 +80,8 @@ def make_case(inp):
     ws = V.widths(spec) if fixed else []
     sep = SEP[spec.get("line_delimiter")] if fixed else ""
     obs = {"writes": writes, "text": text, "close": closed}
-    coq_in = P(V.coq_cid(spec), B(fixed), L(ws, Nat), S(sep), L(rows, lambda r: L(r, S)))
+    coq_ops = L(ops, lambda o: "(WRow %s)" % L(o[1], S) if o[0] == "row" else "(WRows %s)" % L(o[1], lambda r: L(r, S)))
+    coq_in = P(V.coq_cid(spec), B(fixed), L(ws, Nat), S(sep), coq_ops)
     coq_obs = P(L(writes, lambda e: O(e, V.coq_err)), "(Some %s)" % S(text), O(closed, V.coq_err))
     n_ok = sum(1 for w in writes if w is None)
     tags = [spec["format"], "header%d" % spec.get("header", 0)] + (["ld-" + str(spec.get("line_delimiter"))] if fixed else [])
@@ -67,11 +91,14 @@ def make_case(inp):
 def direct_oracle(inp, obs):
     spec, rows = inp["spec"], inp["rows"]
     header = spec.get("header", 0)
-    accepted = [r for r, w in zip(rows, obs["writes"]) if w is None]
+    only_single_rows = not inp.get("ops")
+    accepted = [r for r, w in zip(rows, obs["writes"]) if w is None] if only_single_rows else None
     if any(w is not None and w["family"] in ("FLeak", "FInterface") for w in obs["writes"]):
         return "write_row raised a non-data error: %r" % [w for w in obs["writes"] if w is not None][:1]
     # the stream holds exactly the accepted rows, in order
-    if spec["format"] == "fixed":
+    if not only_single_rows:
+        want = None
+    elif spec["format"] == "fixed":
         ws = V.widths(spec)
         sep = SEP[spec.get("line_delimiter")]
         want = "".join("".join(c + " " * (w - len(c)) for c, w in zip(r, ws)) + sep for r in accepted)
@@ -79,7 +106,7 @@ def direct_oracle(inp, obs):
         s = io.StringIO(newline="")
         csv.writer(s).writerows(accepted)
         want = s.getvalue()
-    if obs["text"] != want:
+    if only_single_rows and obs["text"] != want:
         return "stream is %r but the accepted rows encode as %r" % (obs["text"], want)
     # reading the output back under the same CID accepts every row and returns the written values
     fresh = V.build_cid(spec)
@@ -87,6 +114,8 @@ def direct_oracle(inp, obs):
     got = [o.get("row") for o in back["outs"]]
     if any("err" in o for o in back["outs"]) or (back["raised"] is not None and back["raised"]["family"] != "FCheck"):
         return "reading the written data back is rejected: %r" % ([o for o in back["outs"] if "err" in o][:1] or back["raised"])
+    if not only_single_rows:
+        return None
     exp = accepted[header:]
     if spec["format"] == "fixed":
         got = [[c.rstrip(" ") if c.strip(" ") else c.strip(" ") for c in r] for r in got]
@@ -120,7 +149,19 @@ def gen_inputs(tier, rnd):
                 if rows and rnd.random() < 0.25:
                     row = list(rnd.choice(rows[spec["header"]:] or [row]))
             rows.append(row)
-        yield {"spec": spec, "rows": rows}
+        case = {"spec": spec, "rows": rows}
+        if rnd.random() < 0.5 and rows:
+            ops, i = [], 0
+            while i < len(rows):
+                if rnd.random() < 0.5:
+                    ops.append(["row", rows[i]])
+                    i += 1
+                else:
+                    k = rnd.randint(1, 4)
+                    ops.append(["rows", rows[i:i + k]])
+                    i += k
+            case["ops"] = ops
+        yield case
 
 
 def classify(inp, obs, msg):
@@ -128,7 +169,20 @@ def classify(inp, obs, msg):
     spec, rows = inp["spec"], inp["rows"]
     if spec["format"] != "fixed" or not msg or not msg.startswith("reading the written data back is rejected"):
         return None
-    accepted = [r for r, w in zip(rows, obs["writes"]) if w is None][spec.get("header", 0):]
+    if inp.get("ops"):
+        # which rows were emitted: replay the calls row by row on a fresh CID (a write_rows call stops at its first rejection)
+        accepted = []
+        w = validio.Writer(V.build_cid(spec), io.StringIO(newline=""))
+        for kind, arg in inp["ops"]:
+            for r in ([arg] if kind == "row" else arg):
+                try:
+                    w.write_row(list(r))
+                    accepted.append(r)
+                except Exception:  # noqa
+                    break
+    else:
+        accepted = [r for r, w in zip(rows, obs["writes"]) if w is None]
+    accepted = accepted[spec.get("header", 0):]
     ws = V.widths(spec)
     if "must be an allowed character" in msg and "U+0020" in msg:
         allowed = spec.get("allowed")
